@@ -164,11 +164,16 @@ class TranslateNode(Node, TranslatableTag):
         """
         message_context = block_scope.pop(self.message_context_var, None)
         if message_context:
-            return (
-                str(message_context)
-                if not isinstance(message_context, str)
-                else message_context
-            )  # Just in case we get a Markupsafe object.
+            if isinstance(message_context, str):
+                return message_context  # Just in case we get a Markupsafe object.
+            try:
+                return str(message_context)
+            except ValueError as err:  # an int beyond the int to str digit limit
+                raise LiquidTypeError(
+                    "expected a string for the message context, found "
+                    f"{message_context.__class__.__name__}",
+                    token=self.token,
+                ) from err
         return None
 
     def gettext(
